@@ -607,6 +607,11 @@ def nt_c12(lhs, impl):
         d = _hexbytes(lhs.split(" ")[1])
         t = impl.split(" ")
         return ("pgpframes", d[0] >> 6 if d else -1, (d[0] & 3) if d and d[0] < 0xC0 else -1, t[0], min(int(t[1]), 9) if len(t) > 1 else 0)
+    if lhs.startswith("pgpsig "):
+        d = _hexbytes(lhs.split(" ")[1])
+        t = impl.split(" ")
+        # (outcome, signature type, algorithms, first octets of the hashed area, embedded?)
+        return ("pgpsig", t[0], bytes(d[1:4]).hex(), bytes(d[6:9]).hex(), "(" in impl)
     f = lhs.split(" ")
     g = f[f.index("G"):]
     if "M" in f:
@@ -618,7 +623,8 @@ def nt_c12(lhs, impl):
 PROPS["C12"] = {
     "modules": ["WhatIs.Props.C12"],
     "theorems": ["WhatIs.C12.reserialize_exact", "WhatIs.C12.parsed_length", "WhatIs.C12.fingerprint_rfc4880", "WhatIs.C12.kdf_witness", "WhatIs.C12.kdf_keeps_extra", "WhatIs.C12.reserialize_exact_full", "WhatIs.C12.fingerprint_rfc4880_full",
-                 "WhatIs.C12.mpi_bits_declared", "WhatIs.C12.lifetime_zero_is_never", "WhatIs.C12.expiry_spec", "WhatIs.C12.expiry_zero_witness", "WhatIs.C12.frame_new", "WhatIs.C12.frame_old", "WhatIs.C12.frame_partial"],
+                 "WhatIs.C12.mpi_bits_declared", "WhatIs.C12.lifetime_zero_is_never", "WhatIs.C12.expiry_spec", "WhatIs.C12.expiry_zero_witness", "WhatIs.C12.frame_new", "WhatIs.C12.frame_old", "WhatIs.C12.frame_partial",
+                 "WhatIs.C12.sig_selfsig_readback", "WhatIs.C12.sig_area_in_order", "WhatIs.C12.sig_hash_suffix", "WhatIs.C12.sig_created_required", "WhatIs.C12.sig_unknown_subpacket"],
     "facts": {"pgp.lifetimeZeroIsNever": True, "pgp.kdfKeepsExtra": True},
     "nontrivial": nt_c12,
     "rule": "v4 keys written by the harness's OWN OpenPGP writer (own packet framing, own framing of signed data, signatures made with the "
@@ -630,19 +636,28 @@ PROPS["C12"] = {
     "level_text": "Proof: for ALL byte strings, whatever the model of PublicKey.parse accepts is re-serialised octet for octet (declared MPI bit "
                   "lengths kept), a parsed body is shorter than 2^16 so the uint16 prefix arithmetic does not wrap, hence the fingerprint is "
                   "the hash of 0x99 || len || body exactly as in the input and the key ID its low 64 bits; the size shown is the declared bit "
-                  "length. The ECDH KDF-length hypothesis is needed (witness theorem; recorded finding D26). Usage flags, dates and expiry are "
-                  "tied by the differential run against the writer's ground truth (UTC), not proved.",
+                  "length (the ECDH KDF field of any length is written back as read, D26 repaired). The SIGNATURE PACKET reader (Signature.parse, "
+                  "parseSignatureSubpackets, parseSignatureSubpacket: three length forms, critical bit, every known subpacket type, embedded "
+                  "signatures, HashSuffix) is modelled and proved against an RFC 4880 writer: the self-signature packet for ANY type, "
+                  "algorithms, creation time, key-flags octet, key lifetime and issuer parses to exactly those values "
+                  "(sig_selfsig_readback), any list of subpackets is applied in order (sig_area_in_order, unbounded), an accepted packet "
+                  "always has a creation time, unknown subpackets are ignored / rejected by the critical bit, and the hash suffix is the "
+                  "packet's own head and hashed area plus the 5.2.4 trailer (sig_hash_suffix). Expiry = key creation + lifetime (UTC date) "
+                  "is expiry_spec. Tied by the pgpsig operation (14,000 / 49,000 packets incl. every subpacket type x placement x critical "
+                  "bit x length, all 256 flag octets, all length-form boundaries, nested embedded signatures, truncations, substitutions).",
     "level_note": "Trusted: Lean kernel; SHA-1 as an abstract function; the harness's OpenPGP writer as ground truth; curve-point validity "
-                  "checks of the real parser are not modelled (it accepts a subset of the model). GnuPG is not installed: no second reference.",
-    "technique": "Lean 4 proof (parse/serialise round trip for all inputs; length bound; RFC 4880 §12.2 fingerprint input) + differential correspondence against an independent OpenPGP writer",
+                  "checks of the real parser are not modelled (it accepts a subset of the model); the nesting fuel of embedded signatures in "
+                  "the signature model is the input length (not proved to be never exhausted; explored with nested packets). GnuPG is not "
+                  "installed: no second reference.",
+    "technique": "Lean 4 proof (parse/serialise round trip for all inputs; length bound; RFC 4880 §12.2 fingerprint input; signature-packet reader against an RFC 4880 §5.2.3 writer) + differential correspondence against an independent OpenPGP writer",
     "trusted_base": ["harness OpenPGP writer + Go crypto (reference fingerprints, signatures)", "vendored packet parser is what is modelled"],
     "assumptions": ["SHA-1 is a function of its input"],
 }
 
 PROPS["C11"] = {
-    "modules": ["WhatIs.Props.C11"],
+    "modules": ["WhatIs.Props.C11", "WhatIs.Props.C12"],
     "theorems": ["WhatIs.C11.identity_bound", "WhatIs.C11.subkey_bound", "WhatIs.C11.nothing_verifies_rejected",
-                 "WhatIs.C11.uid_framing_injective", "WhatIs.C11.key_framing_injective"],
+                 "WhatIs.C11.uid_framing_injective", "WhatIs.C11.key_framing_injective", "WhatIs.C12.sig_hash_suffix"],
     "facts": {},
     "nontrivial": nt_c12,
     "gen_timeout": 3000,
@@ -656,7 +671,9 @@ PROPS["C11"] = {
                   "one of the input's signature packets is a positive/generic certification issued by the primary key that verifies for "
                   "exactly that user ID, and a subkey only with a binding/revocation signature that verifies for exactly that subkey; if "
                   "nothing verifies the key is rejected; the framing of the signed data is injective in (key body, user ID or subkey body, "
-                  "hashed area). That a changed message does not verify is the cryptographic assumption: exhibited mutant by mutant.",
+                  "hashed area); the part of the signature packet that enters the hash (HashSuffix) is proved to be the packet's own head and "
+                  "hashed area plus the RFC 4880 5.2.4 trailer for every accepted packet (C12.sig_hash_suffix over the model of "
+                  "Signature.parse). That a changed message does not verify is the cryptographic assumption: exhibited mutant by mutant.",
     "level_note": "Trusted: Lean kernel; hash and public-key verification as oracles (second-preimage resistance / unforgeability are "
                   "assumed, not proved); revocation-signature handling of ReadEntity is simplified in the model (the code rejects more).",
     "technique": "Lean 4 proof (invariant over an unbounded packet list with oracle verification; injective framing) + bit-flip exploration with an independent OpenPGP writer",
